@@ -157,19 +157,19 @@ Definition run_c07_gibbs (s : sx) : sx :=
   | _ => bad_request
   end.
 
-(* simulate(): [bn nodes' order' do evidence virt size include_latents partial psize fuel draws]
+(* simulate(): [bn nodes' order' do evidence virt size include_latents partial psize fuel draws margs]
    do / evidence = [(var, state name)], virt = [(new node id, var, values)]
    -> [columns frame calls batch_sizes consumed] ; columns = simulate's final column selection *)
 Definition run_c07_simulate (s : sx) : sx :=
   match s with
-  | SL [sb; sn'; so; sdo; se; svi; sn; si; sp; sps; sf; sd] =>
+  | SL [sb; sn'; so; sdo; se; svi; sn; si; sp; sps; sf; sd; smg] =>
       match dec_bn sb, sx_list sx_nat sn', sx_list sx_nat so, sx_list (sx_pair sx_nat sx_Z) sdo,
             sx_list (sx_pair sx_nat sx_Z) se, sx_list (sx_triple sx_nat sx_nat (sx_list sx_Qc)) svi with
       | Some b, Some nodes', Some order, Some dos, Some ev, Some virt =>
           match sx_nat sn, sx_bool si, sx_list (sx_pair sx_nat (sx_list sx_nat)) sp, sx_opt sx_nat sps,
-                sx_nat sf, sx_list sx_nat sd with
-          | Some size, Some incl, Some partial, Some psize, Some fuel, Some draws =>
-              let b' := simulate_bn b nodes' dos virt in
+                sx_nat sf, sx_list sx_nat sd, sx_list sx_nat smg with
+          | Some size, Some incl, Some partial, Some psize, Some fuel, Some draws, Some margs =>
+              let b' := simulate_bn b nodes' dos margs virt in
               let ev' := ev ++ dos ++ map (fun t => (fst (fst t), 0%Z)) virt in
               if order_okb b' order then
                 match rejection_rows fuel b' order ev' size partial psize (mk_ost draws) with
@@ -183,7 +183,7 @@ Definition run_c07_simulate (s : sx) : sx :=
                                of_calls o; of_list of_nat sizes; of_nat (length draws - length (ostream o))])
                 end
               else sx_err E_ORDER
-          | _, _, _, _, _, _ => bad_request
+          | _, _, _, _, _, _, _ => bad_request
           end
       | _, _, _, _, _, _ => bad_request
       end
